@@ -219,7 +219,7 @@ def h3_unichr(timeout=60, **kw):
     return core.run_symx("H3_unichr", fn, [cm.FileUnicodeMap.add_cid2unichr], {"samples": len(samples)}, timeout, concretize=conc)
 
 
-def h5_mapcache(timeout=100, **kw):
+def h5_mapcache(n=3, timeout=100, **kw):
     """CMapDB.get_cmap / get_unicode_map with the resource loader stubbed: for every call history (names, writing modes, repeated calls) the map returned is
     the one for the requested collection and writing mode (history / cache independence; also serves C12)"""
     import types
@@ -238,7 +238,7 @@ def h5_mapcache(timeout=100, **kw):
         cm.CMapDB._umap_cache.clear()
         hist = []
         try:
-            for step in range(3):
+            for step in range(n):
                 kind = ex.choice(2, "kind%d" % step)
                 name = ["Adobe-X1", "Adobe-X2"][ex.choice(2, "name%d" % step)] if kind == 0 else ["Foo-H", "Foo-V"][ex.choice(2, "name%d" % step)]
                 if kind == 0:
@@ -263,7 +263,7 @@ def h5_mapcache(timeout=100, **kw):
     def conc(m, info):
         return {"hist": [list(h) for h in info["hist"]]}
     return core.run_symx("H5_mapcache", fn, [cm.CMapDB.get_cmap, cm.CMapDB.get_unicode_map, cm.PyUnicodeMap.__init__, cm.PyCMap.__init__],
-                         {"history": "3 calls, each get_unicode_map(one of 2 collections, either writing mode) or get_cmap(one of 2 names)", "loader": "stubbed"}, timeout, concretize=conc)
+                         {"history": "%d calls, each get_unicode_map(one of 2 collections, either writing mode) or get_cmap(one of 2 names)" % n, "loader": "stubbed"}, timeout, concretize=conc)
 
 
 def h4_widths(which=1, timeout=200, part=None, **kw):
